@@ -155,16 +155,14 @@ theorem base_admit {limit pre : Nat} (P : Proto) {c : Cfg} (hb : Base P.zeroUnl 
     (hcap : capOk P.zeroUnl limit (c.occ.length + 1) = true) :
     Base P.zeroUnl limit pre (admitCfg P c tid c.occ none) := base_unlock P (base_admitCore hb tid hcap) _
 
-theorem base_admit_evict {limit pre : Nat} (P : Proto) {c : Cfg} (hb : Base P.zeroUnl limit pre c) (tid v : Nat)
+theorem base_admitCore_evict {zu : Bool} {limit pre : Nat} {c : Cfg} (hb : Base zu limit pre c) (tid v : Nat)
     (r : List Nat) (hocc : c.occ = v :: r) :
-    Base P.zeroUnl limit pre (admitCfg P c tid r (some v)) := by
+    Base zu limit pre (admitCore c tid r (some v)) := by
   have hn := next_not_mem hb
-  have hcap : capOk P.zeroUnl limit (r.length + 1) = true := by
+  have hcap : capOk zu limit (r.length + 1) = true := by
     have := hb.cap; rw [hocc] at this; simpa using this
   have her : c.occ.erase v = r := by rw [hocc]; simp
   have hv : v ∈ c.occ := by rw [hocc]; simp
-  unfold admitCfg
-  apply base_unlock
   refine ⟨?_, ?_, ?_⟩
   · simp only [admitCore]
     rw [replay_snoc, hb.rep]
@@ -175,6 +173,11 @@ theorem base_admit_evict {limit pre : Nat} (P : Proto) {c : Cfg} (hb : Base P.ze
     rcases hx with hx | hx
     · exact Nat.lt_succ_of_lt (hb.fresh x (by rw [hocc]; exact List.mem_cons_of_mem _ hx))
     · simp only [admitCore]; omega
+
+theorem base_admit_evict {limit pre : Nat} (P : Proto) {c : Cfg} (hb : Base P.zeroUnl limit pre c) (tid v : Nat)
+    (r : List Nat) (hocc : c.occ = v :: r) :
+    Base P.zeroUnl limit pre (admitCfg P c tid r (some v)) :=
+  base_unlock P (base_admitCore_evict hb tid v r hocc) _
 
 theorem holds_of_base {zu : Bool} {limit pre : Nat} {c : Cfg} (hb : Base zu limit pre c) :
     holds zu limit pre c.trace c.occ = true := by
@@ -337,7 +340,7 @@ theorem invA_noise {P : Proto} {limit pre : Nat} {c : Cfg} (h : InvA P limit pre
   · exact invA_done h tid
 
 theorem invA_step {P : Proto} {limit pre : Nat} {c : Cfg} (h : InvA P limit pre c) (tid : Nat)
-    (hfin : P.final ≠ .plain) (hcas : P.final = .cas → P.early = true) :
+    (hfin : P.final ≠ .plain) (hcas : P.final = .cas → P.early = true) (hfu : P.fused = false) :
     InvA P limit pre (stepThread P limit c tid) := by
   unfold stepThread
   split
@@ -351,11 +354,13 @@ theorem invA_step {P : Proto} {limit pre : Nat} {c : Cfg} (h : InvA P limit pre 
       · simp only [hin, if_false]
         exact ⟨base_nop h.base tid, passedOkT_upd h.passed tid _ (by intro s k hh; cases hh)⟩
   · split
-    · split
+    · simp only [hfu, Bool.false_eq_true, if_false]
+      split
       · exact invA_lock h tid
       · exact invA_read h tid hfin hcas
     · exact invA_blk h tid
-    · exact invA_read h tid hfin hcas
+    · simp only [hfu, Bool.false_eq_true, if_false]
+      exact invA_read h tid hfin hcas
     · rename_i snap k hpc
       by_cases hk : k ≤ 1
       · simp only [hk, if_true]; exact invA_check h tid snap
@@ -374,6 +379,8 @@ theorem invA_step {P : Proto} {limit pre : Nat} {c : Cfg} (h : InvA P limit pre 
         rw [← hh.1]
         exact h.passed tid snap (k' + 1) hpc
     · exact h
+    · simp only [hfu, Bool.false_eq_true, if_false]
+      exact h
   · split
     · split
       · exact invA_lock h tid
@@ -385,14 +392,15 @@ theorem invA_step {P : Proto} {limit pre : Nat} {c : Cfg} (h : InvA P limit pre 
       · exact invA_stp h tid _ _ (by intro s k hh; cases hh)
     · exact h
     · exact h
+    · exact h
 
 theorem invA_run {P : Proto} {limit pre : Nat} (hfin : P.final ≠ .plain) (hcas : P.final = .cas → P.early = true)
-    (σ : List Nat) (c : Cfg) (h : InvA P limit pre c) : InvA P limit pre (run P limit c σ) := by
+    (hfu : P.fused = false) (σ : List Nat) (c : Cfg) (h : InvA P limit pre c) : InvA P limit pre (run P limit c σ) := by
   induction σ generalizing c with
   | nil => exact h
   | cons t r ih =>
     simp only [run, List.foldl_cons]
-    exact ih _ (invA_step h t hfin hcas)
+    exact ih _ (invA_step h t hfin hcas hfu)
 
 theorem invA_init (P : Proto) (limit pre : Nat) (progs : List (Nat × List Op))
     (h : capOk P.zeroUnl limit pre = true) : InvA P limit pre (init pre progs) := by
